@@ -611,6 +611,12 @@ func fixtureByID(id string) (stick.Value, error) {
 			in = customSafe{in}
 		}
 		return in, nil
+	case "embniltime":
+		// MarshalJSON (and String) are promoted from the nil embedded pointer
+		return struct {
+			*time.Time
+			N int
+		}{}, nil
 	case "embnilsafe":
 		return struct{ stick.SafeValue }{}, nil
 	case "embnilmethod":
